@@ -31,7 +31,7 @@ CLAIMED = {
          'lemmas (update_stats, stop_condition, get_batches) hold for arbitrary mathematical integers (one inductive '
          'step). Batches <= 2 programs quick, <= 3 thorough; real _run loop for iterations<=6/12 x batch<=3/5. A sequential session of 2 (3) programs through the real '
          'run()/gen_program/process_cp_transformations/process_ncp_transformations with a stand-in ProgramProcessor that fails at a symbolic point per program and the real '
-         'JavaCompiler parser on a synthesised javac output (crash bit symbolic): reported <=> tool failure or compiler crash, own message per fault, saved test cases, totals, faults file.',
+         'JavaCompiler parser on a synthesised javac output (crash bit symbolic): reported <=> tool failure or compiler crash, own message per fault, saved test cases, totals, faults file; one batch of two programs with the real word-pool code on a 6-word pool, every package-name choice symbolic.',
     note='trusted: stand-in compiler with arbitrary verdicts (real parser = C14), real shutil in a temp dir, z3; '
          'process pools, --debug/--rerun/--keep-all outside the claim',
     technique='bounded symbolic execution of hephaestus.py (check_oracle, update_stats, stop_condition, get_batches, '
